@@ -1127,13 +1127,17 @@ def proj_asm(it, out, err, doc):
                 recs.append(rec)
                 if text[:1] in ('+', '|') and (itab is not None or BORDER.match(text)):
                     # a table in the comment field: every row stays a row of its own (tab=1 the first, which stands
-                    # for the table and carries its cells; tab=2 the others), measured and warned about per row
-                    if itab is None:
+                    # for the table and carries its cells; tab=2 the others), measured and warned about per row.
+                    # A border directly below a border is the top of the next table (the comment of the next
+                    # instruction begins with a table).
+                    border = text[0] == '+'
+                    if itab is None or (border and itab['border']):
                         itab = dict(rec=rec, cols=None)
                         rec.update(w=[it.code(TABLE_TOKEN)], tab=1)
                     else:
                         rec.update(w=[], tab=2)
-                    if text[0] == '|':
+                    itab['border'] = border
+                    if not border:
                         add_cells(it, itab, text)
                         itab['rec']['cols'] = itab['cols']
                 else:
